@@ -199,7 +199,11 @@ func Big(s *core.Source) orb.Geometry {
 	}
 	n := []int{9999, 10000, 10001, 10037, 20011}[s.Intn(5, "bign")]
 	m := []int{99, 100, 101, 137, 260}[s.Intn(5, "bigm")]
-	switch s.Intn(7, "bigkind") {
+	switch s.Intn(9, "bigkind") {
+	case 7: // a long line FOLLOWED by other members: whatever the encoder keeps after a big write shows up in them
+		return orb.MultiLineString{orb.LineString(pts(n)), orb.LineString(pts(2)), orb.LineString(pts(3))}
+	case 8:
+		return orb.Collection{orb.LineString(pts([]int{4095, 4096, 4097, n}[s.Intn(4, "bign2")])), orb.Point{1, 2}, orb.LineString(pts(2)), orb.Polygon{orb.Ring(pts(4))}}
 	case 0:
 		return orb.LineString(pts(n))
 	case 1:
